@@ -660,6 +660,10 @@ pub fn format_code(
 		ConvTypeV::Char => match value.clone() {
 			Val::Num(n) => {
 				let n = n.get();
+				// `as u32` saturates, negative or huge numbers are not codepoints
+				if !(0.0..=f64::from(u32::from(char::MAX))).contains(&n) {
+					bail!(InvalidUnicodeCodepointGot(n as u32));
+				}
 				tmp_out.push(
 					std::char::from_u32(n as u32)
 						.ok_or_else(|| InvalidUnicodeCodepointGot(n as u32))?,
